@@ -1,16 +1,19 @@
 (* C17 property theorems: statements only; proofs live in Proofs/C17.v.
    s, s0 : ANY file system; t, t1, t2 : ANY clock values; h : ANY history of earlier runs (any
    length); o : what parsing + generation handed the writer in the run under consideration
-   (single-file or multi-file, any number of crates, any bytes, generation failures included).
-   may_touch o = the paths the run can write; NoDup (may_touch o) = distinct output files. *)
+   (single-file or multi-file, any number of crates, any bytes, generation failures included,
+   with or without Swift's shared Codable.swift).
+   may_touch o = the paths the run can write; NoDup (may_touch o) = distinct output files.
+   The model is of the code after fix 0622333 (Codable.swift compared with what is written);
+   no finding class is carved out. *)
 From TS Require Import Model.Str Model.Writer Spec.C17Spec.
 From TS Require Proofs.C17.
 
-(* (a) An identical second run changes nothing at all - bytes AND modification times of every file -
-   whenever the run has no Codable.swift to write (known_C17 o = None). *)
+(* (a) An identical second run changes nothing at all - bytes AND modification times of every file,
+   Codable.swift included. *)
 Theorem C17_idempotent :
   forall (s : fs) (t1 t2 : mtime) (o : outputs),
-    NoDup (may_touch o) -> known_C17 o = None -> run (run s t1 o) t2 o = run s t1 o.
+    NoDup (may_touch o) -> run (run s t1 o) t2 o = run s t1 o.
 Proof. exact Proofs.C17.idempotent. Qed.
 Print Assumptions C17_idempotent.
 
@@ -18,50 +21,39 @@ Print Assumptions C17_idempotent.
    number of times, at any times, leaves the file system exactly as the last run left it. *)
 Theorem C17_idempotent_history :
   forall (s0 : fs) (h : history) (t : mtime) (o : outputs) (ts : list mtime),
-    NoDup (may_touch o) -> known_C17 o = None ->
+    NoDup (may_touch o) ->
     run_history s0 (h ++ (t, o) :: map (fun t' => (t', o)) ts) = run_history s0 (h ++ [(t, o)]).
 Proof. exact Proofs.C17.idempotent_history. Qed.
 Print Assumptions C17_idempotent_history.
 
-(* (a) with Codable.swift: every OTHER file keeps bytes and modification time on an identical re-run *)
-Theorem C17_rerun_keeps_every_other_file :
-  forall (s : fs) (t1 t2 : mtime) (o : outputs) (p : fpath),
-    NoDup (may_touch o) -> ~ In p (rewritten_each_run o) ->
-    fs_read (run (run s t1 o) t2 o) p = fs_read (run s t1 o) p.
-Proof. exact Proofs.C17.rerun_read. Qed.
-Print Assumptions C17_rerun_keeps_every_other_file.
-
-(* (a) bytes only: an identical re-run never changes the bytes of any file, Codable.swift included *)
-Theorem C17_rerun_keeps_all_bytes :
-  forall (s : fs) (t1 t2 : mtime) (o : outputs) (p : fpath),
-    NoDup (may_touch o) -> content (run (run s t1 o) t2 o) p = content (run s t1 o) p.
-Proof. exact Proofs.C17.rerun_content. Qed.
-Print Assumptions C17_rerun_keeps_all_bytes.
-
-(* the finding class, exactly: a successful Swift multi-file run that needs CodableVoid stamps
-   Codable.swift with the time of EVERY run (write_codable_file compares without the newline it
-   writes), unless the location already held a file with exactly the newline-less contents *)
-Theorem C17_codable_rewritten_every_run :
-  forall (s : fs) (t1 t2 : mtime) (folder : fpath) (crates : list (fpath * gen_result)) (c : bytes),
+(* Codable.swift: a file holding the contents plus the newline write_codable appends is up to date
+   and is left untouched, modification time included *)
+Theorem C17_codable_up_to_date_untouched :
+  forall (s : fs) (t : mtime) (folder : fpath) (crates : list (fpath * gen_result)) (c : bytes) (m : mtime),
     let o := MultiFile folder crates (Some c) in
-    all_generated crates = true -> NoDup (may_touch o) -> content s (codable_path folder) <> Some c ->
-    fs_read (run (run s t1 o) t2 o) (codable_path folder) = Some (c ++ [ch_nl], t2).
-Proof. exact Proofs.C17.codable_rewritten. Qed.
-Print Assumptions C17_codable_rewritten_every_run.
+    all_generated crates = true -> NoDup (may_touch o) ->
+    fs_read s (codable_path folder) = Some (c ++ [ch_nl], m) ->
+    fs_read (run s t o) (codable_path folder) = Some (c ++ [ch_nl], m).
+Proof. exact Proofs.C17.codable_up_to_date_untouched. Qed.
+Print Assumptions C17_codable_up_to_date_untouched.
 
-(* hence (a) without the hypothesis known_C17 o = None is false *)
-Theorem C17_idempotent_refuted :
-  exists (s : fs) (t1 t2 : mtime) (o : outputs),
-    NoDup (may_touch o) /\ run (run s t1 o) t2 o <> run s t1 o.
-Proof. exact Proofs.C17.idempotent_refuted. Qed.
-Print Assumptions C17_idempotent_refuted.
+(* Codable.swift: anything else under that name - absent, stale, or the contents WITHOUT the
+   newline - is replaced by the contents plus newline and stamped with the time of the run *)
+Theorem C17_codable_stale_rewritten :
+  forall (s : fs) (t : mtime) (folder : fpath) (crates : list (fpath * gen_result)) (c : bytes),
+    let o := MultiFile folder crates (Some c) in
+    all_generated crates = true -> NoDup (may_touch o) ->
+    content s (codable_path folder) <> Some (c ++ [ch_nl]) ->
+    fs_read (run s t o) (codable_path folder) = Some (c ++ [ch_nl], t).
+Proof. exact Proofs.C17.codable_stale_rewritten. Qed.
+Print Assumptions C17_codable_stale_rewritten.
 
 (* (b) After ANY history of runs from ANY initial file system, every file the last run is
-   responsible for and for which generation produced at least one byte holds exactly the bytes a
-   run into an empty location produces (Codable.swift: next theorem). *)
+   responsible for (Codable.swift included) and for which generation produced at least one byte
+   holds exactly the bytes a run into an empty location produces. *)
 Theorem C17_fresh :
   forall (s0 : fs) (h : history) (t t' : mtime) (o : outputs) (p : fpath) (b : bytes),
-    NoDup (may_touch o) -> In (p, b) (responsible o) -> ~ In p (rewritten_each_run o) -> b <> [] ->
+    NoDup (may_touch o) -> In (p, b) (responsible o) -> b <> [] ->
     content (run_history s0 (h ++ [(t, o)])) p = content (run empty_fs t' o) p.
 Proof. exact Proofs.C17.fresh. Qed.
 Print Assumptions C17_fresh.
@@ -69,19 +61,9 @@ Print Assumptions C17_fresh.
 (* ... and those bytes are the generated ones *)
 Theorem C17_fresh_value :
   forall (s : fs) (t : mtime) (o : outputs) (p : fpath) (b : bytes),
-    NoDup (may_touch o) -> In (p, b) (responsible o) -> ~ In p (rewritten_each_run o) -> b <> [] ->
-    content (run s t o) p = Some b.
+    NoDup (may_touch o) -> In (p, b) (responsible o) -> b <> [] -> content (run s t o) p = Some b.
 Proof. exact Proofs.C17.fresh_value. Qed.
 Print Assumptions C17_fresh_value.
-
-(* (b) for Codable.swift: the contents plus newline, unless exactly the newline-less contents were there *)
-Theorem C17_fresh_codable :
-  forall (s : fs) (t : mtime) (folder : fpath) (crates : list (fpath * gen_result)) (c : bytes),
-    let o := MultiFile folder crates (Some c) in
-    all_generated crates = true -> NoDup (may_touch o) -> content s (codable_path folder) <> Some c ->
-    content (run s t o) (codable_path folder) = Some (c ++ [ch_nl]).
-Proof. exact Proofs.C17.fresh_codable. Qed.
-Print Assumptions C17_fresh_codable.
 
 (* (b) skip-when-empty, exactly: a file for which generation produced no byte is left as it is -
    bytes and time stamp - so a stale file stays in place *)
@@ -94,7 +76,7 @@ Print Assumptions C17_empty_output_keeps_file.
 (* hence (b) without the hypothesis b <> [] is false: an earlier output survives an empty one *)
 Theorem C17_fresh_refuted :
   exists (s0 : fs) (h : history) (t t' : mtime) (o : outputs) (p : fpath) (b : bytes),
-    NoDup (may_touch o) /\ In (p, b) (responsible o) /\ ~ In p (rewritten_each_run o) /\
+    NoDup (may_touch o) /\ In (p, b) (responsible o) /\
     content (run_history s0 (h ++ [(t, o)])) p <> content (run empty_fs t' o) p.
 Proof. exact Proofs.C17.fresh_refuted. Qed.
 Print Assumptions C17_fresh_refuted.
@@ -103,7 +85,7 @@ Print Assumptions C17_fresh_refuted.
    differ and the new bytes are non-empty *)
 Theorem C17_write_iff_changed :
   forall (s : fs) (t : mtime) (o : outputs) (p : fpath) (b : bytes),
-    NoDup (may_touch o) -> In (p, b) (responsible o) -> ~ In p (rewritten_each_run o) ->
+    NoDup (may_touch o) -> In (p, b) (responsible o) ->
     fs_read (run s t o) p =
     match fs_read s p with
     | Some (old, m) => if str_eqb old b then Some (old, m) else if is_empty_bytes b then Some (old, m) else Some (b, t)
@@ -137,17 +119,16 @@ Theorem C17_exit_status :
 Proof. exact Proofs.C17.status_spec. Qed.
 Print Assumptions C17_exit_status.
 
-(* the verdict predicates the check evaluates on observed file systems hold of the model outside
-   the finding class *)
+(* the verdict predicates the check evaluates on observed file systems hold of the model *)
 Theorem C17_rerun_good :
   forall (s : fs) (t1 t2 : mtime) (o : outputs),
-    NoDup (may_touch o) -> known_C17 o = None -> good_rerun (run s t1 o) (run (run s t1 o) t2 o) = true.
+    NoDup (may_touch o) -> good_rerun (run s t1 o) (run (run s t1 o) t2 o) = true.
 Proof. exact Proofs.C17.rerun_good. Qed.
 Print Assumptions C17_rerun_good.
 
 Theorem C17_fresh_good :
   forall (s0 : fs) (h : history) (t t' : mtime) (o : outputs),
-    NoDup (may_touch o) -> known_C17 o = None -> nonempty_outputs o = true ->
+    NoDup (may_touch o) -> nonempty_outputs o = true ->
     good_fresh (map fst (responsible o)) (run_history s0 (h ++ [(t, o)])) (run empty_fs t' o) = true.
 Proof. exact Proofs.C17.fresh_good. Qed.
 Print Assumptions C17_fresh_good.
